@@ -111,7 +111,9 @@ Viols(r) ==
   ELSE IF r.ctor \notin Known THEN {<<"HARNESS", "no row in Commands.tla for this constructor", "">>}
   ELSE IF r.panicked THEN {<<"C15", "constructing or rendering the command panicked", "">>}
   ELSE IF r.wire = <<>> \/ r.wire[Len(r.wire)] # 10 THEN {<<"C15", "request is not one LF-terminated line", "">>}
-  ELSE LET t == T!Tokenize(SubSeq(r.wire, 1, Len(r.wire) - 1))  row == Row(r.ctor) IN
+  \* (a user may pass more values than MPD's 15-argument limit admits, e.g. 20 tags to `tagtypes enable`: the server will refuse
+  \*  that request, but what is judged here is that every value is written, in order, in its documented form)
+  ELSE LET t == T!TokenizeAll(SubSeq(r.wire, 1, Len(r.wire) - 1))  row == Row(r.ctor) IN
        IF ~t.ok THEN {<<"C15", "the server cannot tokenize the request", "">>}
        ELSE IF t.name # row.word THEN {<<"C15", "request does not use the documented command word", "">>}
        ELSE IF ~Match(row.args, t.args, r.p) THEN {<<"C15", "arguments do not denote the documented values for these parameters", "">>}
